@@ -84,14 +84,14 @@ PROPS = {
     "C16": dict(
         title="CLP(FD) soundness (answers satisfy every posted constraint)",
         props_module="PvModel.Props.C16",
-        props_extra=["PvModel.Props.C16Rel"],
+        props_extra=["PvModel.Props.C16Rel", "PvModel.Props.C16Keys"],
         rule="every program twice: (1) as a query — FD programs: 1-4 variables, interval and sparse (unsorted, duplicated) domains over -4..=4 with mixed signs placed before/between/after "
              "the constraints, 1-5 constraints of every kind with operand aliasing and constants, == between variables and to numbers, 1 in 6 with a "
              "conde of constraint groups, hidden (non-query) FD variables; observable: answer sequence; oracle: brute force over the window — every "
              "answer is an integer tuple that extends to a solution; non-trivial = >1 solution or >=1 answer; distinct = distinct case lines; (2) programs with at most ONE propagator (whose state representation does not depend on the hash-iteration order) also raw with a STATE DUMP (`rst` case lines): substitution of every program variable, domain store and constraint store (kind + walk*ed operands, sorted) of every state the body goal delivers, real State vs model State",
         trusted=SEARCH_TRUST,
         assumptions=[],
-        open=["distinctfd on an OPEN-TAILED list (the tail variable is taken for an element) is outside the global exactness theorems (CstOK requires a proper list term)", "that every domain-store key is unbound (so labelling empties the domain store), the normal form of stored disequalities, and the assembly of labelling + reification into the reported answer are carried by the correspondence"],
+        open=["distinctfd on an OPEN-TAILED list (the tail variable is taken for an element) is outside the global exactness theorems (CstOK requires a proper list term)", "every domain-store key is unbound: PROVED (C16_domain_keys_unbound, Props/C16Keys.lean, strict mode, no CLP(Z) constraint on an FD variable); the normal form of stored disequalities in FD states and the assembly of labelling + reification into the reported answer are carried by the correspondence"],
     ),
     "C17": dict(
         title="CLP(FD) labelling completeness and uniqueness",
@@ -101,7 +101,7 @@ PROPS = {
              "disjunction path it satisfies; non-trivial = >1 solution or >=1 answer; distinct = distinct case lines",
         trusted=SEARCH_TRUST,
         assumptions=[],
-        open=["distinctfd on an OPEN-TAILED list (the tail variable is taken for an element) is outside the global exactness theorems (CstOK requires a proper list term)", "that every domain-store key is unbound (so labelling empties the domain store), the normal form of stored disequalities, and the assembly of labelling + reification into the reported answer are carried by the correspondence"],
+        open=["distinctfd on an OPEN-TAILED list (the tail variable is taken for an element) is outside the global exactness theorems (CstOK requires a proper list term)", "every domain-store key is unbound: PROVED (C16_domain_keys_unbound, Props/C16Keys.lean, strict mode, no CLP(Z) constraint on an FD variable); the normal form of stored disequalities in FD states and the assembly of labelling + reification into the reported answer are carried by the correspondence"],
     ),
     "C19": dict(
         title="CLP(Z) plusz/timesz",
